@@ -65,3 +65,14 @@ From NV Require Import Skip.Model Skip.Stmts Skip.LateLink.
 Theorem C04_retired_stays_unlinked_refuted : ~ stmt_retired_stays_unlinked.
 Proof. exact retired_stays_unlinked_refuted. Qed.
 Print Assumptions C04_retired_stays_unlinked_refuted.
+
+(** What IS true of the step machine, for all programs and schedules: once BOTH the successful Delete
+    whose level-0 mark removed node n AND the successful Insert that created n have returned, n is on no
+    level chain in any later state.  The code hands the node to the barrier when the Delete returns;
+    the difference between this theorem and the refuted obligation above is exactly the late
+    upper-level link of an Insert that is still in flight (D17) — and it says what a repair has to
+    wait for. *)
+From NV Require Import Skip.IterStmts Skip.LinStmts Skip.RetireStmts Skip.RetireProofs.
+Theorem C04_retired_unlinked_when_both_returned : stmt_retired_unlinked_when_both_returned.
+Proof. exact retired_unlinked_when_both_returned. Qed.
+Print Assumptions C04_retired_unlinked_when_both_returned.
